@@ -340,7 +340,7 @@ func verifJ2KCfgs() []verifJ2KCfg {
 
 func TestVerif_C16_j2k(t *testing.T) {
 	rep := verifNewReport(t, "TestVerif_C16_j2k",
-		"jpeg2000.Encoder.Encode: configs {reversible, irreversible q80/q100, levels 0, cb16x8, tiled 64x32 / 100x100 / 48x48, layers 3, 4 layers+PCRD ratio 8, precinct 32, signed, progression 0..4 (layered and tiled)} x comps{1,3} x bitDepth{8,12,16} (subset per size); images {noise (4/7), all-max, checker, zero}; "+verifC16SizeDesc(true)+" (images above 60000 pixels: reversible + irreversible q80, 1 comp 8 bit, plus every config at 8 bit gray for 256x256/257x257); strict T.800 Annex A walker (SOC,SIZ,COD,QCD,SOT Psot chain,TLM,no FF90+ in packet data,EOC last) + SIZ/COD fields; plus 14 ROI / MCT / MCC+MCO streams walked for structure")
+		"jpeg2000.Encoder.Encode: configs {reversible, irreversible q80/q100, levels 0, cb16x8, tiled 64x32 / 100x100 / 48x48, layers 3, 4 layers+PCRD ratio 8, precinct 32, signed, progression 0..4 (layered and tiled)} x comps{1,3} x bitDepth{8,12,16} (subset per size); images {noise (4/7), all-max, checker, zero}; "+verifC16SizeDesc(true)+" (images above 60000 pixels: reversible + irreversible q80, 1 comp 8 bit, plus every config at 8 bit gray for 256x256/257x257); strict T.800 Annex A walker (SOC,SIZ,COD,QCD,SOT Psot chain,TLM,no FF90+ in packet data,EOC last) + SIZ/COD fields; plus ROI x {tiles 32x32, 32x16, 0x16, 24x24} x {1..3 layers, target ratio 4/6} x comps{1,3}; plus 14 ROI / MCT / MCC+MCO streams walked for structure")
 	defer rep.finish()
 	r := verifNewRng(1604)
 	cfgs := verifJ2KCfgs()
@@ -382,6 +382,21 @@ func TestVerif_C16_j2k(t *testing.T) {
 		px := verifNoise(r, 64, 48, comps, 8)
 		out, err, o := verifEnc(func() ([]byte, error) { return jpeg2000.NewEncoder(p).Encode(px) })
 		verifCheckJ2K(rep, fmt.Sprintf("enc=j2k cfg=roi w=64 h=48 comps=%d bits=8", comps), out, err, o, p, false)
+	}
+	// ROI together with tiling and with the global rate-allocation path (several layers / target ratio):
+	// every tile-part header then carries RGN segments, which Psot has to count
+	for _, tc := range []struct {
+		tw, th, layers int
+		ratio         float64
+	}{{32, 32, 1, 0}, {32, 32, 2, 0}, {32, 16, 3, 0}, {0, 16, 2, 0}, {32, 32, 1, 4}, {24, 24, 3, 6}} {
+		for _, comps := range []int{1, 3} {
+			p := jpeg2000.DefaultEncodeParams(64, 48, comps, 8, false)
+			p.TileWidth, p.TileHeight, p.NumLayers, p.TargetRatio = tc.tw, tc.th, tc.layers, tc.ratio
+			p.ROI = &jpeg2000.ROIParams{X0: 8, Y0: 8, Width: 16, Height: 16, Shift: 5}
+			px := verifNoise(r, 64, 48, comps, 8)
+			out, err, o := verifEnc(func() ([]byte, error) { return jpeg2000.NewEncoder(p).Encode(px) })
+			verifCheckJ2K(rep, fmt.Sprintf("enc=j2k cfg=roi+tiles%dx%d+layers%d+ratio%g w=64 h=48 comps=%d bits=8", tc.tw, tc.th, tc.layers, tc.ratio, comps), out, err, o, p, false)
+		}
 	}
 	// Part 2 style streams (ROIConfig COM+RGN, custom MCT matrix, MCT/MCC/MCO bindings): structure only
 	for _, st := range verifC10Streams(rep, r) {
